@@ -102,4 +102,7 @@ def waitReturns (st : St) (n : Nat) : Prop := totalDones st n = n
 /-- sync.WaitGroup panics ("negative WaitGroup counter") when `Done` is called more often than `Add(1)` -/
 def negativeCounter (st : St) (n : Nat) : Prop := n < totalDones st n
 
+instance (st : St) (n : Nat) : Decidable (waitReturns st n) := inferInstanceAs (Decidable (totalDones st n = n))
+instance (st : St) (n : Nat) : Decidable (negativeCounter st n) := inferInstanceAs (Decidable (n < totalDones st n))
+
 end Pandora.Model.C06PoolRun
